@@ -55,6 +55,10 @@ v("ok-alg-product-flag-removed", A, 'with "U\'† @ U\'":\n        hermitian', '
 v("ok-alg-v-rhs-no-adj", A, 'solve_sylvester("Yadj".adj -', 'solve_sylvester("Yadj" -', [], "Yadj is Hermitian")
 v("ok-alg-divide-rewritten", A, '            "U\'† @ U\'" / -2\n        if offdiagonal:', '            -"U\'† @ U\'" / 2\n        if offdiagonal:', [])
 v("ok-alg-sum-reordered", A, '"B" + "H\'_offdiag" + "H\'_offdiag @ U\'"\n\n    with "B":\n        start = 0\n        if diagonal:', '"H\'_offdiag @ U\'" + "B" + "H\'_offdiag"\n\n    with "B":\n        start = 0\n        if diagonal:', [])
+v("alg-yadj-shortcut-by-any-commuting-block", A, 'zero if commuting_blocks[index[0]] else ("X".adj + "X") / 2', 'zero if True in commuting_blocks else ("X".adj + "X") / 2', ["C01", "C03", "C07"],
+  note="round-10 seed: per-block shortcut hoisted into an any() over all blocks")
+v("ok-alg-yadj-shortcut-only-if-all-commute", A, 'zero if commuting_blocks[index[0]] else ("X".adj + "X") / 2', 'zero if False not in commuting_blocks else ("X".adj + "X") / 2', [],
+  note="the shortcut is only lost for some blocks: the general arm is valid for a commuting block too")
 v("ok-alg-herm-part-split", A, 'zero if commuting_blocks[index[0]] else ("X".adj + "X") / 2', 'zero if commuting_blocks[index[0]] else "X".adj / 2 + "X" / 2', [])
 
 # --------------------------------------------------------------------------- series.py
@@ -276,6 +280,12 @@ v("ok-kpm-rescale-centre-rewritten", KP, "    b = (lmax + lmin) / 2.0", "    b =
 v("ok-kpm-rescale-width-rewritten", KP, "    a = np.abs(lmax - lmin) / (2.0 - eps)", "    a = np.abs(lmin - lmax) / (2 - eps)", [])
 # --------------------------------------------------------------------------- number_ordered_form.py
 N = "number_ordered_form"
+v("nof-expand-contiguous-fast-path", N, "        index_mapping = [\n            self.operators.index(op) if op in self.operators else -1",
+  "        if self.operators and self._n_inf_order == len(self.operators):\n            n_front = new_operators.index(self.operators[0])\n            n_back = len(new_operators) - len(self.operators) - n_front\n            front, back = (0,) * n_front, (0,) * n_back\n            return type(self)(new_operators, {(*front, *powers, *back): coeff for powers, coeff in self.args[1]}, validate=False)\n        index_mapping = [\n            self.operators.index(op) if op in self.operators else -1",
+  ["C07", "C08"], note="round-10 seed: powers padded front and back instead of placed by operator identity")
+v("ok-nof-expand-identity-shortcut", N, "        index_mapping = [\n            self.operators.index(op) if op in self.operators else -1",
+  "        if tuple(new_operators) == tuple(self.operators):\n            return self\n        index_mapping = [\n            self.operators.index(op) if op in self.operators else -1",
+  [], note="returning self when the operator lists coincide")
 v("nof-coefficient-tested-for-number-operator-objects", N, "            if coeff.has(*self._number_operator_placeholders):", "            if coeff.has(NumberOperator):", ["C08", "C07"],
   "seed C08-r7: stored coefficients hold placeholders, the test never finds a NumberOperator")
 v("nof-cancel-ladder-number", N, "            for p, op in zip(powers[self._n_inf_order :], binary_ops):\n",
